@@ -202,6 +202,60 @@ pub fn api_hop<T: Send>(label: L, f: impl FnOnce() -> T + Send) -> Result<T, Pan
     r
 }
 
+struct RunOnDrop<F: FnMut()>(F);
+impl<F: FnMut()> Drop for RunOnDrop<F> {
+    fn drop(&mut self) {
+        (self.0)()
+    }
+}
+struct UnrelatedPanic;
+
+/// Runs `f` as an API region **from a destructor while the thread is unwinding** from an unrelated
+/// panic (a scope guard or an engine object that flushes its MIDI input on drop): inside `f`
+/// `std::thread::panicking()` is true although nothing is wrong with the call. The unrelated panic
+/// is raised with `resume_unwind` (no panic hook) and caught here; a panic of `f` itself is caught
+/// by `api` inside the destructor.
+pub fn api_unwinding<T>(label: L, f: impl FnOnce() -> T) -> Result<T, Panicked> {
+    let mut out: Option<Result<T, Panicked>> = None;
+    {
+        let slot = &mut out;
+        let mut f = Some(f);
+        let _ = std::panic::catch_unwind(std::panic::AssertUnwindSafe(move || {
+            let _guard = RunOnDrop(move || {
+                if let Some(f) = f.take() {
+                    *slot = Some(api(label, f));
+                }
+            });
+            std::panic::resume_unwind(Box::new(UnrelatedPanic));
+        }));
+    }
+    match out {
+        Some(r) => r,
+        None => {
+            eprintln!("harness error: the destructor that should have made the call did not run");
+            std::process::exit(2);
+        }
+    }
+}
+
+/// How a call on the main instance is made (decided by the trace).
+#[derive(Copy, Clone, PartialEq, Eq, Debug)]
+pub enum Mode {
+    Plain,
+    OtherThread,
+    Unwinding,
+}
+
+/// `api`, `api_hop` or `api_unwinding`, decided by the trace.
+#[inline]
+pub fn api_mode<T: Send>(mode: Mode, label: L, f: impl FnOnce() -> T + Send) -> Result<T, Panicked> {
+    match mode {
+        Mode::Plain => api(label, f),
+        Mode::OtherThread => api_hop(label, f),
+        Mode::Unwinding => api_unwinding(label, f),
+    }
+}
+
 /// `api` or `api_hop`, decided by the trace.
 #[inline]
 pub fn api_on<T: Send>(hop: bool, label: L, f: impl FnOnce() -> T + Send) -> Result<T, Panicked> {
